@@ -1250,7 +1250,7 @@ void Logic::dumpHeaderToFile(std::ostream & dump_out) const {
     dump_out << "(set-logic " << getName() << ")\n";
     for (SSymRef ssr : sort_store.getSortSyms()) {
         if (isBuiltinSortSym(ssr)) continue;
-        dump_out << "(declare-sort " << sort_store.getSortSymName(ssr) << " " << sort_store.getSortSymSize(ssr)
+        dump_out << "(declare-sort " << SStore::protectSortName(sort_store.getSortSymName(ssr)) << " " << sort_store.getSortSymSize(ssr)
                  << ")\n";
     }
 
